@@ -47,9 +47,17 @@ auto strong_convexity(const constant_t&)
     return 0.0;
 }
 
+// NB: only the symmetric part of P contributes to the quadratic form 1/2 * x.dot(P * x)
+auto symmetric(const matrix_t& P)
+{
+    auto S     = P;
+    S.matrix() = 0.5 * (P.matrix() + P.matrix().transpose());
+    return S;
+}
+
 auto strong_convexity(const quadratic_t& constraint)
 {
-    return nano::strong_convexity(constraint.m_P);
+    return nano::strong_convexity(symmetric(constraint.m_P));
 }
 
 scalar_t strong_convexity(const functional_t& constraint)
@@ -81,7 +89,7 @@ auto vgrad(const quadratic_t& constraint, vector_cmap_t x, vector_map_t gx)
     const auto q = constraint.m_q.vector();
     if (gx.size() == x.size())
     {
-        gx = P * x.vector() + q;
+        gx = 0.5 * (P + P.transpose()) * x.vector() + q;
     }
     return 0.5 * x.vector().dot(P * x.vector()) + q.dot(x.vector()) + constraint.m_r;
 }
@@ -135,7 +143,7 @@ bool convex(const constant_t&)
 
 bool convex(const quadratic_t& constraint)
 {
-    return nano::convex(constraint.m_P);
+    return nano::convex(symmetric(constraint.m_P));
 }
 
 bool convex(const functional_t& constraint)
